@@ -39,7 +39,36 @@ def _wif_layout_case(net, compressed):
     return contract('bitcoinlib.keys.Key.wif', case=name, props=('C12',))(type(name.replace('-', '_'), (), d))
 
 
+def _wif_stale_cache_case(net, compressed):
+    """Key.wif() on a key whose WIF cache holds the export for ANOTHER version byte (left by an earlier wif(prefix=...)): still the key's own network"""
+    name = 'stale-cache-%s-%s' % (net, 'compressed' if compressed else 'uncompressed')
+    fields = kp._key_fields(compressed, False)
+    fields['secret'] = Int(1, N - 1)
+    fields['network'] = Const(Network(net))
+    fields['_wif'] = Str           # whatever text the earlier export produced
+    fields['_wif_prefix'] = Bytes(1)
+    T = RecordOf(Key, **fields)
+    prefix = bytes.fromhex(NETWORK_DEFINITIONS[net]['prefix_wif'])
+
+    def requires(self):
+        return self._wif_prefix != prefix
+
+    def result_is(self):
+        payload = prefix + bip32.ser256(self.secret) + (b'\x01' if compressed else b'')
+        return enc.base58encode(payload + enc.double_sha256(payload)[:4])
+
+    def prepare(self):
+        k = Key(self.fields['secret'], network=net, compressed=compressed)
+        k.wif(prefix=self.fields['_wif_prefix'])          # the real history that leaves such a cache behind
+        return {'self': k}
+
+    d = {'params': {'self': T}, 'init': kp._init_key, 'requires': requires, 'result_is': result_is, 'prepare': prepare, 'no_history': True,
+         '__doc__': 'Key.wif() on %s after an earlier export with another version byte: the cached text is not returned' % net}
+    return contract('bitcoinlib.keys.Key.wif', case=name, props=('C12',))(type(name.replace('-', '_'), (), d))
+
+
 WIF_LAYOUT = [_wif_layout_case(n, c)._contract.key for n in sorted(NETWORK_DEFINITIONS) for c in (True, False)]
+WIF_LAYOUT += [_wif_stale_cache_case(n, c)._contract.key for n in ('bitcoin', 'litecoin', 'dogecoin', 'testnet') for c in (True, False)]
 
 
 def _hd_layout_case(is_private):
